@@ -17,4 +17,7 @@ PROPS = {
     "C09": dict(pkg="./props/c09", level="exploration",
                 quick=dict(shards=12, checks=1200, timeout=150),
                 thorough=dict(shards=16, checks=16000, timeout=1800)),
+    "C07": dict(pkg="./props/c07", level="exploration",
+                quick=dict(shards=12, checks=2400, timeout=200),
+                thorough=dict(shards=16, checks=64000, timeout=1800)),
 }
